@@ -156,6 +156,7 @@ class ARINC429DataPacket(object):
         ARINC_WORD_LEN = 8
         (self.msgcount, _res) = struct.unpack_from("<HH", buffer)
         exp_msg = (len(buffer) - CH_SPECIFIC_HDR_LEN) // ARINC_WORD_LEN
+        self.arincwords = []
         for msg_idx in range(exp_msg):
             offset = (msg_idx * ARINC_WORD_LEN) + CH_SPECIFIC_HDR_LEN
             arinc_data = ARINC429DataWord()
